@@ -16,6 +16,11 @@ def run(rep, kf, tier, seed):
             engine_b.discharge(r, kf, [cp.build_contract(m)], "C19", tier, seed)
             return r
         tasks.append(task)
+    def init_task():
+        r = core.Report("C19", tier, seed)
+        engine_b.discharge(r, kf, [cp.init_contract()], "C19", tier, seed)
+        return r
+    tasks.append(init_task)
     for r in core.run_parallel(tasks):
         rep.merge(r)
     rep.trusted.extend([
